@@ -25,6 +25,10 @@ Definition rate_is_integer : bool := true.
 
 (* render_suite: column pointer bounded by the number of invocations *)
 Definition walk_is_bounded : bool := true.
+(* end = ri + VECTOR_LENGTH(r->invocations) + walk_end_extra; loop test ri < end (strict) or ri <= end; break test ri == end or ri >= end *)
+Definition walk_end_extra : Z := (0)%Z.
+Definition walk_end_strict : bool := true.
+Definition walk_break_eq : bool := true.
 
 Definition cvsweb_prefix : list N := [104; 116; 116; 112; 115; 58; 47; 47; 99; 118; 115; 119; 101; 98; 46; 111; 112; 101; 110; 98; 115; 100; 46; 111; 114; 103; 47; 99; 103; 105; 45; 98; 105; 110; 47; 99; 118; 115; 119; 101; 98; 47; 115; 114; 99; 47; 114; 101; 103; 114; 101; 115; 115; 47]%N.   (* https://cvsweb.openbsd.org/cgi-bin/cvsweb/src/regress/ *)
 Definition name_attic : list N := [97; 116; 116; 105; 99]%N.   (* attic *)
